@@ -52,6 +52,10 @@ gx := 0
 func setg(v) { gx = v; return gx }
 func nestg() { inner := func() { deeper := func() { return gx }; return deeper() + 0 }; return inner() }
 func who() { return os.getenv("WHO") }
+func tryd() { return try(hdeny, func(e) { return "handled" }) }
+func deny() { hdeny(); return "proceeded" }
+gch := chan(4)
+func rng(n) { for i := 0; i < n; i++ { w := i + 10; gch <- w }; out := []; for i, v := range gch { out.append([i, v]); if len(out) == n { break } }; return out }
 func rdin() { return string(os.stdin.read()) }
 worker := spawn(func() { return 7 })
 wfirst := worker.wait()
@@ -91,16 +95,16 @@ type invocation struct {
 	Src        string // RunCode payload
 	Fn         string // Call payload
 	Args       []int
-	IsLib      bool // RunCode of the library (state-carrying)
-	FailImport bool // the module imported by this call fails in its body
-	Background bool // runs under context.Background(), which can never be cancelled
-	CtxOS      bool // the invocation's context carries an OS of its own (WHO=req<k>)
-	NoOpts     bool // RunCode without options: the VM keeps what an earlier RunCode configured
+	IsLib      bool   // RunCode of the library (state-carrying)
+	FailImport bool   // the module imported by this call fails in its body
+	Background bool   // runs under context.Background(), which can never be cancelled
+	CtxOS      bool   // the invocation's context carries an OS of its own (WHO=req<k>)
+	NoOpts     bool   // RunCode without options: the VM keeps what an earlier RunCode configured
 	ReqTag     string // RunCode with a per-invocation value for the global `request`
 	StaleMod   bool   // stale call of a kept MODULE function (not of a library function)
 	StalePrev  bool   // the kept function belongs to the library before the live one
-	Stateful   bool // a Call that changes globals and must be replayed on the model
-	OwnDelta   int  // for cancelled/deadline: steps after start at which the fault lands
+	Stateful   bool   // a Call that changes globals and must be replayed on the model
+	OwnDelta   int    // for cancelled/deadline: steps after start at which the fault lands
 	// stale cancels: earlier invocation index -> delta steps after this
 	// invocation's start
 	Stale map[int]int
@@ -299,7 +303,17 @@ func genHistory(g *sim.Stream, f *sim.Stream) []*invocation {
 			iv.API = "Call"
 			switch kind {
 			case kNormal:
-				switch g.Intn(16) {
+				switch g.Intn(19) {
+				case 16:
+					// the host's one "denied" error object, handled here ...
+					iv.Fn = "tryd"
+				case 17:
+					// ... and not handled here: the call must fail every time
+					iv.Fn = "deny"
+				case 18:
+					// a channel global filled and ranged over with an index, again
+					// and again
+					iv.Fn, iv.Args = "rng", []int{g.Range(1, 4)}
 				case 15:
 					// standard input of the OS that came with this invocation's context
 					iv.Fn, iv.CtxOS = "rdin", true
@@ -444,8 +458,10 @@ func genHistory(g *sim.Stream, f *sim.Stream) []*invocation {
 		if kind == kCancelled || kind == kDeadline {
 			iv.OwnDelta = 1 + f.Intn(300)
 		}
-		if kind == kNormal && !iv.Stateful && !iv.IsLib && g.Chance(1, 8) {
+		if kind == kNormal && !iv.Stateful && !iv.IsLib && iv.Fn != "deny" && iv.Fn != "rng" && g.Chance(1, 8) {
 			// the same payload, entered with a context that is already cancelled
+			// (not the payloads whose ordinary outcome is an error, or that
+			// leave values behind in a channel when they are cut short)
 			iv.Kind = kPreCancelled
 		}
 		if kind == kNormal && !iv.CtxOS && g.Chance(1, 8) {
@@ -699,9 +715,10 @@ func runC07(rc *fw.RunCtx) {
 		return object.Nil
 	})}
 	extra["os"] = modOs.Module()
-	extra["hits"] = 0 // a data global supplied by the host, which scripts rebind
-	extra["request"] = "req-none" // replaced per invocation by some RunCodes
-	extra["items"] = []any{1, 2, 3}  // a Go container: every RunCode converts it afresh
+	extra["hits"] = 0                                                                                                                              // a data global supplied by the host, which scripts rebind
+	extra["request"] = "req-none"                                                                                                                  // replaced per invocation by some RunCodes
+	extra["hdeny"] = object.NewBuiltin("hdeny", func(ctx context.Context, args ...object.Object) object.Object { return object.Errorf("denied") }) // replaced per configuration
+	extra["items"] = []any{1, 2, 3}                                                                                                                // a Go container: every RunCode converts it afresh
 	var gnames []string
 	for k := range baseGlobals(extra) {
 		gnames = append(gnames, k)
@@ -727,12 +744,20 @@ func runC07(rc *fw.RunCtx) {
 		}
 		vmOS := simos.New()
 		vmOS.Setenv("WHO", "vm")
-		ropts := append(baseOpts(extra), risor.WithImporter(imp), risor.WithOS(vmOS))
+		// the host's "access denied" answer is one error object, made once
+		// per configuration and returned every time
+		denied := object.Errorf("denied")
+		ex := map[string]any{}
+		for k, v := range extra {
+			ex[k] = v
+		}
+		ex["hdeny"] = object.NewBuiltin("hdeny", func(ctx context.Context, args ...object.Object) object.Object { return denied })
+		ropts := append(baseOpts(ex), risor.WithImporter(imp), risor.WithOS(vmOS))
 		c := risor.NewConfig(ropts...)
 		c07Options.Store(c, ropts)
 		return c
 	}
-	cfg := newCfg()      // system under test
+	cfg := newCfg() // system under test
 
 	// compile payloads once (shared read-only between the VM under test and the models)
 	// (a host that compiles a script once and runs it many times hands the VM
